@@ -194,6 +194,22 @@ func (r *Replayer) RunRace() (string, string) {
 	return text, "error"
 }
 
+// RunRaw runs a replay file and returns the whole output (selftest).
+func (r *Replayer) RunRaw(path string) (string, string) {
+	cmd := exec.Command(r.bin, "-test.run", "^TestVerifReplay$", "-test.count=1", "-test.timeout=120s")
+	cmd.Dir = r.cwd
+	cmd.Env = append(goEnv(), "GOSYM_REPLAY="+path, "GOSYM_OPGEN_BIN="+r.opgenBin)
+	out, _ := cmd.CombinedOutput()
+	text := string(out)
+	verdict := "error"
+	if strings.Contains(text, "REPLAY-RESULT: passed") {
+		verdict = "passed"
+	} else if strings.Contains(text, "REPLAY-RESULT: ") {
+		verdict = "failed"
+	}
+	return text, verdict
+}
+
 func cmdReplay(args []string) int {
 	if len(args) < 1 {
 		fmt.Fprintln(os.Stderr, "usage: gosym replay <file>")
